@@ -1,0 +1,140 @@
+//go:build verif
+
+package poseidon_tree
+
+// Contracts checked by /verif (govc). Comments only; see /verif/DESIGN.md.
+// C18: the persistent tree is modelled by the datatype ptree.Node of /verif/spec/08_tree.smt2 (nodes are immutable once
+// they are stored in a PoseidonNode; a store after that fails an obligation).
+
+//@ package pt = worldcoin/gnark-mbu/poseidon_tree
+
+//@ adt PoseidonNode Node ptree.Nil
+
+//@ box PoseidonFullNode
+//@   term ptree.Full(self.dep, self.val, self.left, self.right)
+
+//@ box PoseidonEmptyNode
+//@   term ptree.Empty(self.dep)
+//@   invariant self.dep >= 0 && len(self.emptyTreeValues) > self.dep
+//@   invariant forall k :: 0 <= k && k <= self.dep ==> self.emptyTreeValues[k] == ptree.E(k)
+
+// ---- the interface contracts (assumed at dynamic calls, proved for both implementations) ----
+
+//@ extern pt.PoseidonNode.depth(node) result
+//@   interface
+//@   property C18
+//@   requires !ptree.isNil(node)
+//@   ensures result == ptree.dep(node)
+
+//@ extern pt.PoseidonNode.value(node) result
+//@   interface
+//@   property C18
+//@   requires !ptree.isNil(node)
+//@   ensures result == ptree.value(node)
+
+//@ extern pt.PoseidonNode.withValue(node, index, val) result
+//@   interface
+//@   property C18
+//@   requires ptree.wf(node) && index >= 0 && ptree.dep(node) <= 62 && inField(val)
+//@   ensures ptree.wf(result) && ptree.isFull(result) && ptree.dep(result) == ptree.dep(node)
+//@   ensures forall j :: ptree.leaf(result, j) == (ptree.samePath(index, j, ptree.dep(node)) ? val : ptree.leaf(node, j))
+//@   ensures forall k :: 0 <= k && k < ptree.dep(node) ==> ptree.sib(result, index, k) == ptree.sib(node, index, k)
+//@   decreases ptree.dep(node)
+
+//@ extern pt.PoseidonNode.writeProof(node, index, out)
+//@   interface
+//@   property C18
+//@   requires ptree.wf(node) && index >= 0 && ptree.dep(node) <= 62 && len(out) >= ptree.dep(node)
+//@   modifies out
+//@   ensures len(out) == len(old(out))
+//@   ensures forall k :: 0 <= k && k < ptree.dep(node) ==> out[k] == ptree.sib(node, index, k)
+//@   ensures forall k :: ptree.dep(node) <= k && k < len(out) ==> out[k] == old(out)[k]
+//@   decreases ptree.dep(node)
+
+// ---- implementations ----
+
+//@ func indexIsLeft
+//@   property C18
+//@   requires index >= 0 && 1 <= depth && depth <= 63
+//@   ensures result == (bits.bit(index, depth - 1) == 0)
+//@   lemmas pow2_pos bit_bool
+
+//@ func (*PoseidonFullNode) depth
+//@   property C18
+//@   implements pt.PoseidonNode.depth
+
+//@ func (*PoseidonEmptyNode) depth
+//@   property C18
+//@   implements pt.PoseidonNode.depth
+
+//@ func (*PoseidonFullNode) value
+//@   property C18
+//@   implements pt.PoseidonNode.value
+
+//@ func (*PoseidonEmptyNode) value
+//@   property C18
+//@   implements pt.PoseidonNode.value
+
+//@ func (*PoseidonFullNode) initHash
+//@   property C18
+//@   requires !ptree.isNil(node.left) && !ptree.isNil(node.right)
+//@   requires inField(ptree.value(node.left)) && inField(ptree.value(node.right))
+//@   modifies node.val
+//@   ensures node.val == poseidon.hash2(ptree.value(node.left), ptree.value(node.right)) && inField(node.val)
+
+//@ func (*PoseidonFullNode) withValue
+//@   property C18
+//@   implements pt.PoseidonNode.withValue
+//@   lemmas E_field wf_value_field wf_unfold leaf_unfold sib_unfold samePath_unfold bit_bool
+
+//@ func (*PoseidonEmptyNode) withValue
+//@   property C18
+//@   implements pt.PoseidonNode.withValue
+//@   lemmas E_field E_step E_zero wf_value_field wf_unfold leaf_unfold sib_unfold samePath_unfold bit_bool
+
+//@ func (*PoseidonFullNode) writeProof
+//@   property C18
+//@   implements pt.PoseidonNode.writeProof
+//@   lemmas wf_unfold sib_unfold
+
+//@ func (*PoseidonEmptyNode) writeProof
+//@   property C18
+//@   implements pt.PoseidonNode.writeProof
+//@   lemmas sib_unfold
+//@   loop 1
+//@     invariant 0 <= i && i <= node.dep && len(out) == len(old(out))
+//@     invariant forall k :: 0 <= k && k < i ==> out[k] == ptree.E(k)
+//@     invariant forall k :: i <= k && k < len(out) ==> out[k] == old(out)[k]
+
+// ---- the tree ----
+
+//@ func NewTree
+//@   property C18
+//@   requires 0 <= depth && depth <= 62
+//@   ensures ptree.isEmpty(result.root) && ptree.dep(result.root) == depth && ptree.wf(result.root)
+//@   lemmas E_zero E_step E_field wf_unfold
+//@   loop 1
+//@     invariant 1 <= i && i <= depth + 1 && len(initHashes) == depth + 1
+//@     invariant forall k :: 0 <= k && k < i ==> initHashes[k] == ptree.E(k)
+
+//@ func (*PoseidonTree) Root
+//@   property C18
+//@   requires ptree.wf(tree.root)
+//@   ensures result == ptree.value(tree.root)
+//@   ensures result == ptree.dense(ptree.leaves(tree.root), ptree.dep(tree.root), 0)
+//@   lemmas dense_of_leaves2 wf_dep
+
+//@ func (*PoseidonTree) Update
+//@   property C18
+//@   requires ptree.wf(tree.root) && index >= 0 && ptree.dep(tree.root) <= 62 && inField(value)
+//@   modifies tree.root
+//@   let d = ptree.dep(old(tree.root))
+//@   ensures ptree.wf(tree.root) && ptree.dep(tree.root) == d
+//@   ensures forall j :: ptree.leaf(tree.root, j) == (ptree.samePath(index, j, d) ? value : ptree.leaf(old(tree.root), j))
+//@   ensures len(result) == d
+//@   ensures merkle.fold(ptree.leaf(old(tree.root), index), result, bits.bitsOf(index, d), d) == ptree.value(old(tree.root))
+//@   ensures merkle.fold(value, result, bits.bitsOf(index, d), d) == ptree.value(tree.root)
+//@   ensures ptree.value(tree.root) == ptree.dense(ptree.leaves(tree.root), d, 0)
+//@   lemmas fold_path dense_of_leaves2 samePath_refl wf_dep
+//@   assert@return ptree.leaf(tree.root, index) == value
+//@   assert@return forall k :: 0 <= k && k < d ==> result[k] == ptree.sib(old(tree.root), index, k)
